@@ -210,6 +210,14 @@ func (b *BinaryExpression) shape() binaryShape {
 		return sh
 	}
 
+	// NOT EXISTS (...) is represented as operator "NOT" on an EXISTS operand without right side
+	if upperOp == "NOT" && b.Right == nil {
+		sh.prefix = "NOT "
+		sh.leftCtx = precNot
+		sh.hasRight = false
+		return sh
+	}
+
 	// Handle special operators like LIKE, ILIKE, SIMILAR TO
 	if b.Not {
 		switch upperOp {
